@@ -337,14 +337,57 @@ pub fn run(ctx: &'static Ctx) -> (&'static str, Value, Vec<&'static str>) {
         .map(|x| x.0)
         .reduce(Stats::new, Stats::merge);
 
-    let stats = s1.merge(s2).merge(s3).merge(s4).merge(s5);
+    // history dimension: every ordered pair (and a,b,a triple) of accessors called back to back on a
+    // fresh thread with related (d, t) arguments: same day and same raw number in different units,
+    // same day different time, different day same time
+    let all_acc: Vec<Acc> = [MS_ACC.as_slice(), MIN_ACC.as_slice()].concat();
+    let days = [1u32, 20_730, 65_535];
+    let times = [0u32, 1, 600, 1439];
+    let hist = std::sync::Mutex::new(Stats::new());
+    for_each_history(all_acc.len(), 2, |w| {
+        let mut st = Stats::new();
+        for &d1 in &days {
+            for &d2 in &days {
+                for &t1 in &times {
+                    for &t2 in &times {
+                        // sequence: w[0](d1,t1), w[1](d2,t2) (if present), w[0](d1,t1) again
+                        let mut seq: Vec<(Acc, u32, u32)> = vec![(all_acc[w[0]], d1, t1)];
+                        if w.len() > 1 {
+                            seq.push((all_acc[w[1]], d2, t2));
+                            seq.push((all_acc[w[0]], d1, t1));
+                        } else if (d1, t1) != (d2, t2) {
+                            seq.push((all_acc[w[0]], d2, t2));
+                        }
+                        for (step, (a, d, t)) in seq.iter().enumerate() {
+                            let got = eval_decode(*a, *d, *t);
+                            st.evaluations += 1;
+                            if in_range(*a, *d, *t) && got != Caught::Ret(Some(expected(*a, *d, *t))) {
+                                ctx.fail(
+                                    &format!("history:datetime_depends_on_previous_call:{}", a.name()),
+                                    || format!("call #{step} of the sequence {:?}: got {:?}, expected {}", seq.iter().map(|x| (x.0.name(), x.1, x.2)).collect::<Vec<_>>(), got, expected(*a, *d, *t)),
+                                    || json!({"op": "history", "sequence": seq.iter().map(|x| json!([x.0.name(), x.1, x.2])).collect::<Vec<_>>()}),
+                                );
+                            }
+                        }
+                    }
+                }
+            }
+        }
+        st.count("history_accessor_sequences", 1);
+        st.nontrivial(format!("h{:?}", w).as_bytes());
+        let mut g = hist.lock().unwrap_or_else(|e| e.into_inner());
+        let old = std::mem::take(&mut *g);
+        *g = old.merge(st);
+    });
+    let s6 = hist.into_inner().unwrap_or_else(|e| e.into_inner());
+    let stats = s1.merge(s2).merge(s3).merge(s4).merge(s5).merge(s6);
     let exhaustive_note = if thorough {
         "cross: all 65536 days x boundary ms/min (re-decoded); all 65536 minute values x D; all days x all 1440 minutes; D(16 days) x all 86.4M ms for the decode-crate accessors (every 5th ms for the volume header)"
     } else {
         "cross: all 65536 days x boundary ms/min (re-decoded); all 65536 minute values x D; all days x all 1440 minutes; 3 days x every 7th ms"
     };
     let cov = stats.coverage(
-        &format!("{exhaustive_note}. non-trivial = distinct day or minute value on the re-decode path; oracle = (d-1)*86400000 + t in i64, identical for both crates"),
+        &format!("{exhaustive_note}. history: every ordered pair of the seven accessors called back to back on a fresh thread over 3 days x 4 raw time values each (same raw number in ms and minutes, same day / different day). non-trivial = distinct day or minute value on the re-decode path; oracle = (d-1)*86400000 + t in i64, identical for both crates"),
         thorough,
         json!({"t_ms": t_ms, "t_min": t_min, "D": dset, "not_covered": "the full 65535 x 86.4M (d, ms) product"}),
     );
@@ -368,6 +411,18 @@ impl<T> Caught<T> {
 }
 
 pub fn replay(ctx: &'static Ctx, case: &Value) {
+    if case["op"].as_str() == Some("history") {
+        for (step, x) in case["sequence"].as_array().cloned().unwrap_or_default().iter().enumerate() {
+            let a = Acc::from_name(x[0].as_str().unwrap_or("")).unwrap_or_else(|| machinery("C08 replay: accessor"));
+            let (d, t) = (x[1].as_u64().unwrap_or(0) as u32, x[2].as_u64().unwrap_or(0) as u32);
+            let got = eval_decode(a, d, t);
+            println!("history step {step}: {} d={d} t={t}: got {:?} expected {}", a.name(), got, expected(a, d, t));
+            if in_range(a, d, t) && got != Caught::Ret(Some(expected(a, d, t))) {
+                ctx.fail(&format!("history:datetime_depends_on_previous_call:{}", a.name()), || format!("step {step}"), || case.clone());
+            }
+        }
+        return;
+    }
     let a = Acc::from_name(case["accessor"].as_str().unwrap_or("")).unwrap_or_else(|| machinery("C08 replay: accessor"));
     let d = case["d"].as_u64().unwrap_or(0) as u32;
     let t = case["t"].as_u64().unwrap_or(0) as u32;
